@@ -224,7 +224,7 @@ def coq_make():
             subprocess.run(["coq_makefile", "-f", "_CoqProject", "-o", "Makefile"], cwd=COQ, check=True,
                            capture_output=True)
         t0 = time.time()
-        r = subprocess.run(["make", "-j%d" % NPROC], cwd=COQ, capture_output=True, text=True, timeout=3000)
+        r = subprocess.run(["make", "-k", "-j%d" % NPROC], cwd=COQ, capture_output=True, text=True, timeout=3000)
         log("[coq] make: %s in %.1fs" % ("ok" if r.returncode == 0 else "FAILED", time.time() - t0))
         return r.returncode == 0, (r.stdout + r.stderr)[-6000:]
 
@@ -401,6 +401,9 @@ class Run:
                 if key not in [k for k, _ in self.known_hits]:
                     self.known_hits.append((key, kf["text"] or what))
                 return
+        if not no_failing_input and len([v for v in self.violations if not v[2]]) >= 5:
+            self.more_violations = getattr(self, "more_violations", 0) + 1
+            return
         self._nrep += 1
         path = os.path.join(REPLAYS, "%s-%d-%d.json" % (self.prop, self.seed, self._nrep))
         replay_obj = dict(replay_obj)
@@ -422,8 +425,11 @@ class Run:
             json.dump(ev, f, indent=1, default=str)
         for key, text in self.known_hits:
             print("KNOWN-FINDING: property=%s %s (%s)" % (self.prop, text, key))
-        # report at most a handful of violation lines (each with its own replay)
-        for what, path, nofail in self.violations[:5]:
+        # a broken proof obligation / correspondence without a concrete failing input is reported only when
+        # the search for a failing input found none; otherwise the concrete inputs are the replays
+        concrete = [v for v in self.violations if not v[2]]
+        shown = concrete if concrete else self.violations
+        for what, path, nofail in shown[:5]:
             log("  violation: " + what)
             print("VIOLATION property=%s replay=%s%s" % (self.prop, path, " no-failing-input-found" if nofail else ""),
                   flush=True)
